@@ -188,6 +188,9 @@ def check_skip_helpers(ctx, prog, rule="vu64-reader-consumes-encoded-length"):
     with it for most values only."""
     from .cursor import skip_to_fns
     n = 0
+    from .roles import Roles
+    _ss = Roles(prog).get("SEEK_START")
+    seek_start_id = _ss.id if _ss is not None else None
     for fn in skip_to_fns(prog):
         dl = [(b, t) for b, t in fn.calls() if not fn.is_cleanup(b) and _mname(t) == "decoded_len"]
         if not dl:
@@ -202,9 +205,20 @@ def check_skip_helpers(ctx, prog, rule="vu64-reader-consumes-encoded-length"):
         for b, t in fn.calls():
             if fn.is_cleanup(b) or b == dlb or not fn.dominates(dlb, b) or len(t.get("args", [])) < 2:
                 continue
+            if (t.get("callee") or "").startswith("core::ops::"):
+                continue        # `offset + (len - 1)`: arithmetic on the amount is not the positioning call
             c = cn.op(t["args"][1], b)
             if _is_len_minus_1(_strip_new(c), dlb):
-                skips.append((b, t))
+                # a *relative* step of len - 1 from behind the first byte; the same amount handed to an absolute
+                # positioning call (or added to the record offset) lands one byte short
+                tg = prog.targets(t, fn)[0]
+                if not any(x.id == seek_start_id for x in tg):
+                    skips.append((b, t))
+            elif seek_start_id is not None and any(x.id == seek_start_id for x in prog.targets(t, fn)[0]):
+                # absolute form: record offset + decoded_len(first)
+                if c[0] == "call" and c[1].endswith("Add::add") and len(c[2]) == 2 and any(z[0] == "p" and z[1] >= 2 and not z[2] for z in c[2]) \
+                        and any(_is_len(_strip_new(z), dlb) for z in c[2]):
+                    skips.append((b, t))
         if not ctx.check(len(skips) == 1, rule, "skip:%s:amount" % fn.name,
                          "%s does not step over exactly `decoded_len(first) - 1` follow bytes of the size field" % fn.name, where=where(fn)):
             continue
